@@ -388,6 +388,16 @@ fn abuild_rec<'a>(spec: &'a Spec, ctl: &'a Arc<ACtl>, next_id: &'a mut u16, base
                 }
                 Ok(AsyncVfsPath::new(PendFS { inner: Box::new(AsyncOverlayFS::new(&ls)), node: id, ctl: ctl.clone() }))
             }
+            Spec::OvlSub { base: b, dirs } => {
+                let br = abuild_rec(b, ctl, next_id, base).await?;
+                let mut ls = vec![];
+                for d in dirs {
+                    let sub = br.join(&d[1..]).map_err(|e| e.to_string())?;
+                    sub.create_dir_all().await.map_err(|e| format!("layer dir: {}", e))?;
+                    ls.push(sub);
+                }
+                Ok(AsyncVfsPath::new(PendFS { inner: Box::new(AsyncOverlayFS::new(&ls)), node: id, ctl: ctl.clone() }))
+            }
         }
     }
     .boxed()
